@@ -58,12 +58,17 @@ Section TcpProofs.
     - cbn [is_nil negb andb]. eexists; eexists. split; [reflexivity|]. split; [|reflexivity].
       split; [cbn [d_wlimit d_cfg]; auto|]. cbn [d_out d_cw d_cwf d_bytes d_rd]. rewrite Hr, app_nil_r in Hd.
       split; [auto|]. split; [exact Hcw|]. rewrite Hd. lia.
-    - destruct got as [|g gs]; [cbn in Hg; lia|]. cbn [is_nil negb andb]. rewrite Hwl.
-      replace (0 =? 0) with true by reflexivity. cbn [negb andb].
-      rewrite N.eqb_refl. cbn [negb].
-      eexists; eexists. split; [reflexivity|]. split; [|reflexivity].
-      split; [cbn [d_wlimit d_cfg]; auto|]. cbn [d_out d_cw d_cwf d_bytes d_rd d_err].
-      split; [rewrite Hd, Hr; now rewrite app_assoc|]. split; [exact Hcw|]. split; [rewrite lenN_app; lia|exact Herr].
+    - destruct got as [|g gs].
+      + (* an empty read (0, nil): nothing is written, the loop simply reads again *)
+        cbn [is_nil negb andb]. eexists; eexists. split; [reflexivity|]. split; [|reflexivity].
+        split; [cbn [d_wlimit d_cfg]; auto|]. cbn [d_out d_cw d_cwf d_bytes d_rd d_err].
+        cbn [app] in Hr. split; [rewrite Hd, Hr; reflexivity|]. split; [exact Hcw|]. split; [lia|exact Herr].
+      + cbn [is_nil negb andb]. rewrite Hwl.
+        replace (0 =? 0) with true by reflexivity. cbn [negb andb].
+        rewrite N.eqb_refl. cbn [negb].
+        eexists; eexists. split; [reflexivity|]. split; [|reflexivity].
+        split; [cbn [d_wlimit d_cfg]; auto|]. cbn [d_out d_cw d_cwf d_bytes d_rd d_err].
+        split; [rewrite Hd, Hr; now rewrite app_assoc|]. split; [exact Hcw|]. split; [rewrite lenN_app; lia|exact Herr].
     - destruct got as [|g gs]; [cbn in Hg; lia|]. cbn [is_nil negb andb]. rewrite Hwl.
       replace (0 =? 0) with true by reflexivity. cbn [negb andb].
       rewrite N.eqb_refl. cbn [negb].
